@@ -713,5 +713,31 @@ theorem tie_parseParamRoute (route : Gen.Route) (gv : GVars) (info : RouteInfo)
   | cons a t =>
     exact tie_parseParamRoute_vars route gv info hm hst hsp hhead (by rw [hss]; rfl) h
 
+
+/-- part of what the model's `finish` checks: as many capturing groups as variable names -/
+theorem compile_ok_groups (gv : GVars) (path : Bytes) (info : RouteInfo) (h : compileRouteIn gv path = .ok info) :
+    countGroups info.regexStr 0 = info.names.length := by
+  cases hss : (findVars (path.length + 1) path).isEmpty with
+  | true =>
+    unfold compileRouteIn at h
+    simp only [hss, if_true] at h
+    cases hopt : checkAndParseOptional (Bytes.quoteDots path) with
+    | none => rw [hopt] at h; cases h
+    | some r =>
+      rw [hopt] at h
+      obtain ⟨_, hc, h1, _, _, _, h6⟩ := finish_ok h
+      rw [h1, h6]; exact hc
+  | false =>
+    rw [compile_vars_eq gv _ hss] at h
+    simp only at h
+    split at h
+    · cases h
+    · split at h
+      · cases h
+      · split at h
+        · cases h
+        · obtain ⟨_, hc, h1, _, _, _, h6⟩ := finish_ok h
+          rw [h1, h6]; exact hc
+
 end Tie
 end Rux
